@@ -37,6 +37,7 @@ OpEv == /\ Live("op")
                             THEN [s EXCEPT !.w = Put(s.w, E.w, [n |-> n, epoch |-> RegOf(n).epoch, pos |-> {Len(RegOf(n).log) - 1}, ended |-> FALSE, first |-> TRUE])]
                             ELSE s)
                   /\ Count({"watches"})
+             [] E.op = "park" -> JudgeK(<<>>, s) /\ UNCHANGED stats
              [] E.op = "next" ->
                   IF E.w \notin DOMAIN s.w THEN JudgeK(<< <<"HarnessOK", r.r = "nostream">> >>, s) /\ UNCHANGED stats
                   ELSE LET W == s.w[E.w]
@@ -46,6 +47,9 @@ OpEv == /\ Live("op")
                            live == sameEpoch /\ R.open
                            \* indices the reported value may stand for: strictly newer than some consistent position
                            cand == { j \in 1..Len(log) : log[j] = r.status /\ \E p \in W.pos : j > p }
+                           \* nothing new to tell: under some consistent reading the last reported status is the latest one
+                           \* (an implementation may or may not repeat a status that was set again to the same value)
+                           upToDate == \E p \in W.pos : p >= 1 /\ log[p] = log[Len(log)]
                        IN CASE r.r = "item" ->
                                  /\ JudgeK(<< <<"C18.ReportsOnlyStatusesSetSinceLastReport", ~W.ended /\ cand # {}>>,
                                               <<"C18.NothingAfterEnd", ~W.ended>> >>,
@@ -53,12 +57,12 @@ OpEv == /\ Live("op")
                                  /\ Count({"items"} \cup (IF cand # {} /\ \A j \in cand : \A p \in W.pos : j > p + 1 THEN {"coalesced"} ELSE {}))
                             [] r.r = "pending" ->
                                  /\ JudgeK(<< <<"C18.FirstReportNeedsNoUpdate", ~W.first>>,
-                                              <<"C18.ReportsLatestOnceUpdatesStop", live /\ Len(log) \in W.pos>>,
+                                              <<"C18.ReportsLatestOnceUpdatesStop", live => upToDate>>,
                                               <<"C18.ClearEndsTheStream", live>> >>, s)
                                  /\ Count({"pendings"})
                             [] r.r = "end" ->
                                  /\ JudgeK(<< <<"C18.EndsOnlyAfterClear", W.ended \/ ~live>>,
-                                              <<"C18.UnreportedStatusBeforeEnd", W.ended \/ Len(log) \in W.pos>> >>,
+                                              <<"C18.UnreportedStatusBeforeEnd", W.ended \/ upToDate>> >>,
                                            [s EXCEPT !.w = Put(s.w, E.w, [W EXCEPT !.ended = TRUE])])
                                  /\ Count({"ends"})
                             [] OTHER -> JudgeK(<< <<"C18.WatchStreamNeverErrors", FALSE>> >>, s) /\ UNCHANGED stats
